@@ -66,8 +66,12 @@ Guess(pre, allowed) ==
      \/ Rate(x) = Rate(y) /\ PosIn(pre, x) > PosIn(pre, y)
 Cands == (IF Mineable # {} THEN {Mineable} ELSE {}) \cup {{}}
 RandBlock(ch) ==
-  LET good == {B \in (kSubset(1, AtomIds) \cup kSubset(2, AtomIds) \cup kSubset(3, AtomIds)) : ValidBlock(B, ch)}
-  IN IF good = {} THEN {} ELSE RandomElement(good)
+  LET a1 == RandomElement(AtomIds)
+      a2 == RandomElement(AtomIds)
+      a3 == RandomElement(AtomIds)
+      b1 == IF ValidBlock({a1}, ch) THEN {a1} ELSE {}
+      b2 == IF ValidBlock(b1 \cup {a2}, ch) THEN b1 \cup {a2} ELSE b1
+  IN IF ValidBlock(b2 \cup {a3}, ch) THEN b2 \cup {a3} ELSE b2
 SimSubmit ==
   \E r \in {RandomElement(1..10)} :
   \E c4 \in {{RandomElement(Subs), RandomElement(Subs), RandomElement(Subs), RandomElement(Subs)}} :
